@@ -605,8 +605,8 @@ _ADJ_GUARDED: Dict[str, Dict[int, bool]] = {}
 def _adjacency_builder(ctx, ci) -> Optional[FuncInfo]:
     """the method whose body fills the adjacency matrix: create_adjacency_matrix itself, or -- when that only wraps
     another method of the class (a cache, a dispatcher) -- the method it calls or hands on"""
-    cam = ci.methods.get("create_adjacency_matrix")
-    if cam is None:
+    cam = ci.methods.get("create_adjacency_matrix") or ctx.p.lookup_method(ci.qualname, "create_adjacency_matrix")
+    if cam is None or cam.is_abstract:
         return None
 
     def builds(fi) -> bool:
@@ -822,6 +822,37 @@ def _adjacency(ctx, ci, cam: FuncInfo, strides, comps, total):
                 ctx.ob("LAT-4", f"{ci.qualname}.create_adjacency_matrix: bounds test on axis {k}",
                        lo_ok and hi_ok,
                        f"`{ast.unparse(nd)}` must be 0 <= n < {extent[k]}", cam, nd.lineno)
+    # bounds tests written over all coordinates at once:  all(0 <= c < l for c, l in zip(nbr, self.<tuple of extents>))
+    for nd in ast.walk(cnode):
+        if not (isinstance(nd, ast.Call) and isinstance(nd.func, ast.Name) and nd.func.id == "all" and len(nd.args) == 1
+                and isinstance(nd.args[0], (ast.GeneratorExp, ast.ListComp)) and len(nd.args[0].generators) == 1):
+            continue
+        g = nd.args[0].generators[0]
+        cmp_ = nd.args[0].elt
+        if not (isinstance(g.iter, ast.Call) and isinstance(g.iter.func, ast.Name) and g.iter.func.id == "zip" and
+                len(g.iter.args) == 2 and isinstance(g.target, ast.Tuple) and len(g.target.elts) == 2 and
+                all(isinstance(e_, ast.Name) for e_ in g.target.elts) and isinstance(cmp_, ast.Compare) and len(cmp_.ops) == 2):
+            continue
+        cvar, lvar = g.target.elts[0].id, g.target.elts[1].id
+        coords, limits = g.iter.args
+        if not (isinstance(coords, ast.Name) and coords.id == nb_name):
+            continue
+        lim_attr = _self_attr(limits)
+        lim = _post_init_tuple(ci, lim_attr) if lim_attr else None
+        shape_ok = isinstance(cmp_.left, ast.Constant) and cmp_.left.value == 0 and isinstance(cmp_.ops[0], ast.LtE) and \
+            isinstance(cmp_.comparators[0], ast.Name) and cmp_.comparators[0].id == cvar and \
+            isinstance(cmp_.ops[1], ast.Lt) and isinstance(cmp_.comparators[1], ast.Name) and cmp_.comparators[1].id == lvar
+        if lim is None or not shape_ok:
+            ctx.rep.note(f"{ci.qualname}.create_adjacency_matrix: bounds test over zip(...) not of the modelled form "
+                         f"0 <= c < limit with limits a tuple of fields; not used as a guard")
+            continue
+        for k in sorted(extent):
+            got = (lim[k],) if k < len(lim) and lim[k] is not None else None
+            okk = got == extent[k]
+            tested.setdefault(k, []).append(cmp_)
+            ctx.ob("LAT-4", f"{ci.qualname}.create_adjacency_matrix: bounds test on axis {k}", okk,
+                   f"coordinate {k} is tested against self.{lim_attr}[{k}] = {got}, the axis has extent {extent[k]}", cam,
+                   nd.lineno)
     # bounds tests written as a mask:  (0 <= nq) & (nq < height) & ...  -- one lower and one upper test per axis
     mask_ok: Dict[str, Dict[int, bool]] = {}
     for mname, per_axis in mask_guard.items():
